@@ -118,7 +118,7 @@ def stepWith (ul : State → Nat → Bool) (s : State) : Op → State × Out
       if s.largest > varintMax then (s, .panic)
       else ({ s with recs := s.recs ++ [.skipped], log := s.log ++ [[]] }, .pn (some s.largest))
     else if frames.length > 0 then
-      if s.largest > varintMax then ({ s with queue := q }, .panic)
+      if s.largest > varintMax then (s, .panic)     -- the mutex is poisoned; the state is never observed again
       else ({ s with queue := q, recs := s.recs ++ [.flighting frames.length (s.now + rt) (s.now + et)],
                      log := s.log ++ [frames] }, .pn (some s.largest))
     else (s, .pn none)
